@@ -51,6 +51,8 @@ pub struct EnvCfg {
   pub max_bursts: usize,
   /// every notification carries exactly one event (trades batching for history length)
   pub single_event_wakeups: bool,
+  /// the loop's `verbose` argument (its diagnostics go to stderr, which the explorer points at /dev/null meanwhile)
+  pub verbose: bool,
 }
 
 pub struct Env<'a> {
@@ -98,6 +100,7 @@ impl<'a> Env<'a> {
     if !self.end_delivered { m.push(Item::EndK); }
     if !self.cfg.script.is_empty() {
       if !self.end_delivered && self.bursts_left > 0 { for n in &self.cfg.burst_sizes { if self.script_pos + n <= self.cfg.script.len() { m.push(Item::Burst(*n)); } } }
+      if !self.end_delivered && self.tablet_left > 0 { m.push(Item::T(true)); m.push(Item::T(false)); }
       return m;
     }
     if self.events_left > 0 && !self.end_delivered {
@@ -112,7 +115,7 @@ impl<'a> Env<'a> {
       Item::EndK => { self.end_delivered = true; self.kq.push_back(it); self.k_edge = true; }
       Item::EndT => { self.end_delivered = true; self.tq.push_back(it); self.t_edge = true; }
       Item::K(_) => { self.events_left -= 1; self.kq.push_back(it); self.k_edge = true; }
-      Item::T(_) => { self.events_left -= 1; self.tablet_left -= 1; self.tq.push_back(it); self.t_edge = true; }
+      Item::T(_) => { self.events_left = self.events_left.saturating_sub(1); self.tablet_left -= 1; self.tq.push_back(it); self.t_edge = true; }
       Item::Burst(n) => { for i in 0..*n { self.kq.push_back(Item::K(self.cfg.script[self.script_pos + i].clone())); } self.script_pos += n; self.bursts_left -= 1; self.k_edge = true; }
     }
   }
@@ -175,8 +178,10 @@ impl<'a> ScriptedDriver for Env<'a> {
         label = "arrival";
         if let Some(t) = t_us.filter(|t| *t < 1_000_000_000_000) {
           if t > 1 {
-            let nd = if self.cfg.exact_deadline_arrival { 3 } else { 2 };
-            match self.choose(nd) { 1 => clock_advance_us(t - 1), 2 => clock_advance_us(t), _ => {} }
+            // 0: at once; 1: just before the deadline; 2: exactly at it; 3 (a deviation): the wake-up itself comes late -
+            // the event arrived in time but poll reports it 1 ms after the deadline has passed
+            let nd = (if self.cfg.exact_deadline_arrival { 3 } else { 2 }) + if self.devs_left > 0 { 1 } else { 0 };
+            match self.choose(nd) { 1 => clock_advance_us(t - 1), 2 if self.cfg.exact_deadline_arrival => clock_advance_us(t), 2 | 3 => { self.devs_left -= 1; clock_advance_us(t + 1000); } _ => {} }
           }
         }
         let first = am[c].clone();
@@ -263,7 +268,7 @@ pub struct Exec {
 pub fn run_once(layout: &Layout, cfg: &EnvCfg, prefix: &[u16], fail_at: Option<usize>) -> Exec {
   clock_reset();
   let mut env = Env::new(cfg, prefix, fail_at);
-  let r = std::panic::catch_unwind(std::panic::AssertUnwindSafe(|| run_one_device(&mut env, layout.clone())));
+  let r = std::panic::catch_unwind(std::panic::AssertUnwindSafe(|| run_one_device_verbose(&mut env, layout.clone(), cfg.verbose)));
   let (result, panicked) = match r { Ok(r) => (r, None), Err(p) => (Err("panic".to_string()), Some(p.downcast_ref::<String>().cloned().or(p.downcast_ref::<&str>().map(|s| s.to_string())).unwrap_or_default())) };
   Exec { trace: env.trace, log: env.log, calls: env.calls, result, replay_divergence: env.replay_divergence, horizon: env.horizon, now_calls: clock_now_calls(), panicked }
 }
@@ -505,7 +510,26 @@ pub struct BFamily<'a> { pub name: &'a str, pub layout: Layout, pub cfg: EnvCfg 
 
 /// Exhaustive DFS over the environment's choice sequences for one family; `inject` adds,
 /// for every execution, one re-run per driver call with that call failing (C20).
+/// stderr of this process pointed at /dev/null while a verbose family runs (one "Starting remapping loop." line per execution otherwise)
+struct QuietStderr(Option<i32>);
+impl QuietStderr {
+  fn new(on: bool) -> QuietStderr {
+    if !on { return QuietStderr(None); }
+    unsafe {
+      let saved = libc::dup(2);
+      let null = libc::open(b"/dev/null\0".as_ptr() as *const libc::c_char, libc::O_WRONLY);
+      if saved < 0 || null < 0 { return QuietStderr(None); }
+      libc::dup2(null, 2); libc::close(null);
+      QuietStderr(Some(saved))
+    }
+  }
+}
+impl Drop for QuietStderr {
+  fn drop(&mut self) { if let Some(fd) = self.0 { unsafe { libc::dup2(fd, 2); libc::close(fd); } } }
+}
+
 pub fn explore_family(ctx: &Ctx, fam: &BFamily, own_prop: &str, inject: bool, cap_execs: u64) -> BAgg {
+  let _quiet = QuietStderr::new(fam.cfg.verbose);
   let global: Mutex<Vec<Vec<u16>>> = Mutex::new(vec![vec![]]);
   let active = AtomicUsize::new(0);
   let total = AtomicUsize::new(0);
